@@ -537,4 +537,3 @@ func CheckCalls(pc *PathCtx) {
 		pc.ProveLeaves("context", co)
 	}
 }
-
